@@ -402,6 +402,35 @@ func runC10(c *Ctx) {
 				mustFail(mu.what, func() error { return verify(pp, ext) })
 			}
 		}
+		// the verdict must not depend on what the parent's unprotected header holds: a countersignature
+		// made (by a peer, with the reference signer) over the OTHER structure version - for a COSE_Sign1
+		// parent the version-1 structure without the parent's signature, for the other parents the V2
+		// structure with an other_fields entry - is refused, also when that very object is stored in the
+		// parent's unprotected header under label 7 or 11
+		if !abbreviated {
+			otherKind := refcose.PSign
+			otherSig := []byte(nil)
+			if p.fields.Kind != refcose.PSign1 {
+				otherKind, otherSig = refcose.PSign1, []byte{1, 2, 3}
+			}
+			forged := &cose.Countersignature{Headers: cose.Headers{Protected: cose.ProtectedHeader{int64(1): k.Alg}, Unprotected: cose.UnprotectedHeader{}}}
+			fsc, _ := refcose.ProtectedContent(forged.Headers.Protected, gen.Custom)
+			forged.Signature = gen.RefSign(k.Ref(), refcose.CountersignStructure(otherKind, false, true, p.fields.Prot, fsc, ext, p.fields.Payload, otherSig))
+			mustFail("made over the other structure version", func() error { return forged.Verify(k.Verifier, parent, ext) })
+			for _, label := range []int64{7, 11} {
+				for _, asList := range []bool{false, true} {
+					holder := c10withUnprotected(p.ptr, label, forged, asList)
+					if holder == nil {
+						continue
+					}
+					hp := holder
+					if val {
+						hp = byValue(holder)
+					}
+					mustFail(fmt.Sprintf("made over the other structure version and stored under label %d of the parent (list=%v)", label, asList), func() error { return forged.Verify(k.Verifier, hp, ext) })
+				}
+			}
+		}
 		// replay as a message signature over the same fields
 		switch pt := p.ptr.(type) {
 		case *cose.Sign1Message:
@@ -413,6 +442,111 @@ func runC10(c *Ctx) {
 			mustFail("replayed as COSE_Signature", func() error { return s.Verify(k.Verifier, bp, pt.Payload, ext) })
 		}
 	})
+
+	// ---- (b') a countersigner that was itself decoded (raw protected bytes retained, possibly not
+	// deterministically encoded) signs again: what it signs is what it will emit ----
+	nRe := c.N(400, 20000)
+	mon.Parallel(c.Workers, nRe, func(w, i int) {
+		r := mon.NewRand(uint64(c.Seed)).Sub(uint64(47000 + i))
+		k := c.Keys.Keys[r.Intn(4)]
+		p := c10buildParent(c, r, i%4, (i/4)%3, rec)
+		if p == nil {
+			return
+		}
+		a := int64(k.Alg)
+		l := gen.RandLayer(r, gen.LayerOpts{Alg: &a, MaxProt: 4, MaxUnprot: 2, ScramblePct: 70})
+		l.ProtWidth = gen.HeadWidths[i%5]
+		ws := &gen.WSignature{L: l, Sig: mon.FixedSig}
+		var cs cose.Countersignature
+		in := map[string]any{"case": i, "family": "decoded countersigner signs again", "countersigner_wire": mon.FullHex(ws.Bytes())}
+		if err := cs.UnmarshalCBOR(ws.Bytes()); err != nil {
+			rec.Event("resign:countersigner-refused")
+			return
+		}
+		ext := gen.External(r)
+		cs.Signature = nil
+		spy := &mon.SpySigner{Alg: k.Alg}
+		var err error
+		if guard(rec, "Countersignature.Sign(decoded countersigner)", in, func() { err = cs.Sign(gen.Entropy, spy, p.ptr, ext) }) {
+			return
+		}
+		rec.Eval(1)
+		rec.Event("resign-cases")
+		canon, _ := refcbor.IsCanonical(l.Content())
+		rec.Class(fmt.Sprintf("resign/parent=%s/decoded=%d/protw=%d/canonical=%v", p.name, p.decoded, l.ProtWidth, canon || len(l.Content()) == 0))
+		if err != nil || spy.Calls != 1 {
+			rec.Violate("sign-path", "resign", fmt.Sprintf("decoded countersigner cannot sign: err=%v calls=%d", err, spy.Calls), in)
+			return
+		}
+		want := refcose.CountersignStructure(p.fields.Kind, false, true, p.fields.Prot, l.Content(), ext, p.fields.Payload, p.fields.Sig)
+		if !eqBytes(spy.Last(), want) {
+			rec.Violate("tbs-mismatch", "resign/sign", fmt.Sprintf("signer got %s\nreference  %s", hexs(spy.Last()), hexs(want)), in)
+			return
+		}
+		// with a real key: what was signed is what is emitted, so the emitted countersignature verifies
+		cs.Signature = nil
+		if err = cs.Sign(gen.Entropy, k.Signer, p.ptr, ext); err != nil {
+			rec.Violate("sign-path", "resign/real", "decoded countersigner cannot sign with a real key: "+err.Error(), in)
+			return
+		}
+		out, merr := cs.MarshalCBOR()
+		var back cose.Countersignature
+		if merr != nil || back.UnmarshalCBOR(out) != nil {
+			rec.Violate("sign-path", "resign/emit", fmt.Sprintf("re-signed countersignature cannot be emitted and read back: %v", merr), in)
+			return
+		}
+		if err = back.Verify(k.Verifier, p.ptr, ext); err != nil {
+			rec.Violate("binding", "resign/verify", "a countersignature re-signed by a decoded countersigner does not verify once emitted: "+err.Error(), in)
+		}
+	})
+
+	// ---- (b'') an untagged COSE_Sign1 as parent: refused, or treated exactly like a COSE_Sign1 ----
+	for i := 0; i < c.N(40, 400); i++ {
+		r := mon.NewRand(uint64(c.Seed)).Sub(uint64(48000 + i))
+		p := c10buildParent(c, r, 0, i%3, rec)
+		if p == nil {
+			continue
+		}
+		s1 := p.ptr.(*cose.Sign1Message)
+		un := (*cose.UntaggedSign1Message)(s1)
+		for vi, parent := range []any{un, *un} {
+			for _, abbreviated := range []bool{false, true} {
+				ext := gen.External(r)
+				in := map[string]any{"case": i, "family": "untagged parent", "by_value": vi == 1, "abbreviated": abbreviated}
+				spy := &mon.SpySigner{Alg: cose.AlgorithmES256}
+				cs := &cose.Countersignature{Headers: cose.Headers{Protected: cose.ProtectedHeader{int64(1): cose.AlgorithmES256}}}
+				var err error
+				if guard(rec, "countersign(untagged parent)", in, func() {
+					if abbreviated {
+						_, err = cose.Countersign0(gen.Entropy, spy, parent, ext)
+					} else {
+						err = cs.Sign(gen.Entropy, spy, parent, ext)
+					}
+				}) {
+					continue
+				}
+				rec.Eval(1)
+				rec.Class(fmt.Sprintf("untagged-parent/byvalue=%v/abbr=%v/accepted=%v", vi == 1, abbreviated, err == nil))
+				if err != nil {
+					rec.Event("untagged-parent:refused")
+					if spy.Calls != 0 {
+						rec.Violate("not-refused", "untagged-parent", "the signer was invoked although the call failed", in)
+					}
+					continue
+				}
+				rec.Event("untagged-parent:accepted")
+				sc := []byte{0xa1, 0x01, 0x26}
+				want := refcose.CountersignStructure(refcose.PSign1, abbreviated, true, p.fields.Prot, sc, ext, p.fields.Payload, p.fields.Sig)
+				if abbreviated {
+					want = refcose.CountersignStructure(refcose.PSign1, true, true, p.fields.Prot, []byte{}, ext, p.fields.Payload, p.fields.Sig)
+				}
+				alt := refcose.CountersignStructure(refcose.PSign1, true, false, p.fields.Prot, nil, ext, p.fields.Payload, p.fields.Sig)
+				if spy.Calls != 1 || (!eqBytes(spy.Last(), want) && !(abbreviated && eqBytes(spy.Last(), alt))) {
+					rec.Violate("tbs-mismatch", "untagged-parent", fmt.Sprintf("an untagged COSE_Sign1 parent was accepted but the signer got %s\nreference (COSE_Sign1 parent, with its signature) %s", hexs(spy.Last()), hexs(want)), in)
+				}
+			}
+		}
+	}
 
 	// ---- (c) refusals ----
 	k := c.Keys.Keys[0]
@@ -602,4 +736,42 @@ func c10mutations(r *mon.Rand, ptr any) []c10mut {
 		)
 	}
 	return out
+}
+
+// c10withUnprotected returns a shallow copy of the parent whose unprotected header additionally holds
+// cs under label (as a single value or a one-element list); the protected bytes, payload and
+// signature are those of the original.
+func c10withUnprotected(ptr any, label int64, cs *cose.Countersignature, asList bool) any {
+	var v any = cs
+	if asList {
+		v = []*cose.Countersignature{cs}
+	}
+	with := func(h cose.Headers) cose.Headers {
+		out := cloneHeaders(h)
+		if out.Unprotected == nil {
+			out.Unprotected = cose.UnprotectedHeader{}
+		}
+		out.Unprotected[label] = v
+		out.RawUnprotected = nil
+		return out
+	}
+	switch x := ptr.(type) {
+	case *cose.Sign1Message:
+		c := *x
+		c.Headers = with(x.Headers)
+		return &c
+	case *cose.SignMessage:
+		c := *x
+		c.Headers = with(x.Headers)
+		return &c
+	case *cose.Signature:
+		c := *x
+		c.Headers = with(x.Headers)
+		return &c
+	case *cose.Countersignature:
+		c := *x
+		c.Headers = with(x.Headers)
+		return &c
+	}
+	return nil
 }
